@@ -45,10 +45,13 @@ Example C10_mutex_sat : exists sched t th, nth_error (st_threads (reached ex_sce
 Proof. exact ex_in_cs. Qed.
 
 (* the shared state after any execution is the result of applying its critical sections (and the output's allocations)
-   one after another, in the order in which they wrote *)
+   one after another, in the order in which they wrote -- and that order is the order in which the lock was acquired:
+   the acquisitions are exactly the threads of the trace's critical sections, followed by the one thread (if any) that
+   holds the lock and has not written yet *)
 Theorem C10_serialisable : forall s sched,
-  st_sh (reached s sched) = fold_left (apply_event (the_cfg s)) (trace (the_cfg s) sched (init_state s)) sh0.
-Proof. exact serialisable. Qed.
+  st_sh (reached s sched) = fold_left (apply_event (the_cfg s)) (trace (the_cfg s) sched (init_state s)) sh0
+  /\ acq_trace (the_cfg s) sched (init_state s) = ev_tids (trace (the_cfg s) sched (init_state s)) ++ pending (reached s sched).
+Proof. exact serialisable_in_acquisition_order. Qed.
 Print Assumptions C10_serialisable.
 
 (* for ALL schedules: completed, the observation satisfies the oracle (outstanding set = union of the per-thread sequential
